@@ -390,6 +390,13 @@ pub fn gen_page_doc(ctx: &Ctx) -> PageDoc {
     doc.objects.insert(font, MObj::Dict(vec![(nm("Type"), name("Font")), (nm("Subtype"), name("Type1")), (nm("BaseFont"), name("Courier"))]));
     let font2 = alloc(ctx);
     doc.objects.insert(font2, MObj::Dict(vec![(nm("Type"), name("Font")), (nm("Subtype"), name("Type1")), (nm("BaseFont"), name("Helvetica"))]));
+    // shared sub-dictionaries that resource dictionaries may refer to indirectly
+    let gs_obj = alloc(ctx);
+    doc.objects.insert(gs_obj, MObj::Dict(vec![(nm("Type"), name("ExtGState")), (nm("LW"), MObj::Int(2))]));
+    let gs_dict_obj = alloc(ctx);
+    doc.objects.insert(gs_dict_obj, MObj::Dict(vec![(nm("GS0"), r(gs_obj))]));
+    let xo_dict_obj = alloc(ctx);
+    doc.objects.insert(xo_dict_obj, MObj::Dict(vec![(nm("X0"), r(gs_obj))]));
     let res_dict = |ctx: &Ctx| -> MDict {
         let mut fonts = vec![(nm("F1"), r(font))];
         if ctx.chance(W, 1, 2, "res-f2") {
@@ -398,6 +405,16 @@ pub fn gen_page_doc(ctx: &Ctx) -> PageDoc {
         let mut d = vec![(nm("Font"), MObj::Dict(fonts))];
         if ctx.chance(W, 1, 3, "res-procset") {
             d.push((nm("ProcSet"), MObj::Array(vec![name("PDF"), name("Text")])));
+        }
+        match ctx.draw(W, 4, "res-extgstate") {
+            0 | 1 => {}
+            2 => d.push((nm("ExtGState"), MObj::Dict(vec![(nm("GS0"), r(gs_obj))]))),
+            _ => d.push((nm("ExtGState"), r(gs_dict_obj))),
+        }
+        match ctx.draw(W, 4, "res-xobject") {
+            0 | 1 => {}
+            2 => d.push((nm("XObject"), MObj::Dict(vec![(nm("X0"), r(gs_obj))]))),
+            _ => d.push((nm("XObject"), r(xo_dict_obj))),
         }
         d
     };
